@@ -7,6 +7,7 @@ pub mod c06;
 pub mod c07;
 pub mod c08;
 pub mod c09;
+pub mod c10;
 pub mod c11;
 pub mod c13;
 pub mod c14;
@@ -32,6 +33,7 @@ pub fn dispatch(id: &str, tier: Tier, seed: u64) -> Option<i32> {
         "C08" => c08::run(tier, seed),
         "C09" => c09::run(c09::Mode::C09, tier, seed),
         "C12" => c09::run(c09::Mode::C12, tier, seed),
+        "C10" => c10::run(tier, seed),
         "C11" => c11::run(tier, seed),
         "C13" => c13::run(tier, seed),
         "C14" => c14::run(tier, seed),
